@@ -15,7 +15,7 @@ def io_width(t):
     n = t.get("callee") or ""
     m = re.match(r"byteorder::(Read|Write)BytesExt::(?:read|write)_([ui]\d+)$", n)
     if m:
-        return WIDTH[m.group(2)]
+        return WIDTH.get(m.group(2)) or int(m.group(2)[1:]) // 8
     return None
 
 
@@ -428,6 +428,9 @@ def ref_zero_extended(ctx, rule):
                 if name.endswith("::read") and r["rv"] == "cast" and not st["sp"].get("exp"):
                     vals.append("(%s as %s)" % (S.val(r["ops"][0]), r.get("to")))
         bad = [v for v in vals if NARROW.search(v)]
+        if name.endswith("::read"):
+            # a reference is an unsigned quantity of two or three bytes: a signed read (read_i16, read_i24) sign-extends its top bit
+            bad += [short(cname(prog, t)) for g in prog.unit(f) for b_, t in g.calls() if re.search(r"ReadBytesExt::read_i\d+$", t.get("callee") or "")]
         ctx.check(bool(vals) and not bad, rule, "%s: references never pass through a 16-bit or narrower type" % short(name), "%d values" % len(vals),
                   "%s computes a string reference as %s: references above 0x7fff (pools with more than 32,767 strings) come out negative or truncated" % (short(name), bad[:2]),
                   f.loc(), fn=f.name, key="%s|ref-wide|%s" % (rule, short(name)))
